@@ -285,7 +285,12 @@ PH_EXPECTED = {"7 % -2": ("V", "int", 1), "-7 % 2": ("V", "int", -1), "7 / -2": 
                "-4611686018427387904 * 2": ("V", "int", -9223372036854775808), "1u - 2u": ("E",), "5u / 2u": ("V", "uint", 2), "5u % 2u": ("V", "uint", 1), "18446744073709551615u + 1u": ("E",),
                "1 / 0": ("E",), "1 % 0": ("E",), "1u / 0u": ("E",), "2 * 3": ("V", "int", 6), "3 - 5": ("V", "int", -2), "1 + 2": ("V", "int", 3), "1u + 2u": ("V", "uint", 3),
                "(-9223372036854775807 - 1) / -1": ("E",), "(-9223372036854775807 - 1) % -1": ("V", "int", 0), "-(-9223372036854775807 - 1)": ("E",), "9223372036854775807 % 9223372036854775806": ("V", "int", 1)}
-PH_TEXTS = list(PH_EXPECTED) + ["1.5 / 0.0", "1.5 / -0.0", "-1.5 / 0.0", "-1.5 / -0.0", "0.0 / 0.0", "0.0 / -0.0", "1.0 / 3.0", "1e308 * 10.0", "-1e308 * 10.0", "2.0 * 3.0", "3.0 - 5.0", "0.1 + 0.2",
+# NaN operands from different sources (each a different float object): NaN op anything is NaN, also over a zero divisor
+_NAN = ("V", "double", "nan")
+PH_EXPECTED.update({t: _NAN for t in ["0.0 / 0.0", "(0.0 / 0.0) / 0.0", "(0.0 / 0.0) / -0.0", "(1.0 / 0.0 - 1.0 / 0.0) / 0.0", "(1.0 / 0.0 - 1.0 / 0.0) / -0.0", "(1.0 / 0.0 * 0.0) / 0.0",
+                                      "(-1.0 / 0.0 + 1.0 / 0.0) / 0.0", "(0.0 / 0.0) * 0.0", "(1.0 / 0.0 - 1.0 / 0.0) + 1.0", "1.0 / (0.0 / 0.0)", "0.0 / (1.0 / 0.0 - 1.0 / 0.0)", "-(0.0 / 0.0)",
+                                      "(0.0 / 0.0) - (0.0 / 0.0)", "(1.0 / 0.0 - 1.0 / 0.0) * (1.0 / 0.0)", "1.0 / 0.0 - 1.0 / 0.0", "(1.0 / 0.0) * 0.0"]})
+PH_TEXTS = list(PH_EXPECTED) + ['double("NaN") / 0.0', 'double("nan") / -0.0', 'double("NaN") + 1.0', "1.5 / 0.0", "1.5 / -0.0", "-1.5 / 0.0", "-1.5 / -0.0", "0.0 / -0.0", "1.0 / 3.0", "1e308 * 10.0", "-1e308 * 10.0", "2.0 * 3.0", "3.0 - 5.0", "0.1 + 0.2",
                                 "5e-324 / 2.0", "-0.0 + 0.0", "0.0 + -0.0", "-0.0 * 1.0", "1.0 / (-0.0 + 0.0)", "1.0 / (0.0 * -1.0)"]
 from .. import pairhist as _pairhist  # noqa: E402
 
